@@ -1,11 +1,28 @@
 use crate::common::CheckSpec;
 
 pub mod c01;
+pub mod c05;
+pub mod c07;
 pub mod c09;
+pub mod c15;
+mod c15_hash;
+mod c15_json;
+mod c15_typed;
+pub mod c16;
+pub mod c17;
 pub mod smoke;
 
 pub fn all() -> Vec<CheckSpec> {
-    vec![c01::spec(), c09::spec(), smoke::spec()]
+    vec![
+        c01::spec(),
+        c05::spec(),
+        c07::spec(),
+        c09::spec(),
+        c15::spec(),
+        c16::spec(),
+        c17::spec(),
+        smoke::spec(),
+    ]
 }
 
 pub fn find(id: &str) -> Option<CheckSpec> {
